@@ -6,6 +6,7 @@ import z3
 from .vals import (Val, PyList, PyDict, ExcVal, Callable_, NONE, TInt, TStr, TBytes, TRef, TOpt, TSet, TMap, TSeq, TRec, TTuple,
                    mk_int, mk_bool, fresh, coerce, truth, opt_isnone, opt_inner, empty_set, empty_seq, fresh_name)
 from .state import Unsupported, Raise
+from . import dsl
 
 NORMAL = ("normal",)
 
@@ -101,7 +102,14 @@ class StmtMixin:
                 yield st2, (NORMAL if ok else ("raise", ExcVal("AssertionError")))
 
     def ex_Global(self, node, st):
-        raise Unsupported("global statement", node)
+        mod = st.env.get("__mod__")
+        d = dsl.REG.classes.get("module:" + mod.name) if mod is not None else None
+        for n in node.names:
+            if d is None or n not in d.fields:
+                raise Unsupported("global %s: not declared with module_state() in the sidecar" % n, node)
+        st.env.setdefault("__globals__", set())
+        st.env["__globals__"] = set(st.env["__globals__"]) | set(node.names)
+        yield st, NORMAL
 
     def ex_Import(self, node, st):
         for a in node.names:
@@ -180,6 +188,13 @@ class StmtMixin:
                     obj = opt_inner(obj)
                 if not (isinstance(obj, Val) and isinstance(obj.ty, TRef)):
                     raise Unsupported("attribute assignment on %r" % (obj,), node)
+                if self.field_type(obj.ty.cls, target.attr) is None:
+                    fdef, cinfo = self.repo.lookup_method(obj.ty.cls, "__set__" + target.attr)
+                    if fdef is not None:      # property setter: run its body
+                        qn = cinfo.module.name + "." + cinfo.name + "." + target.attr + ".setter"
+                        for st2, r in self.call_inline(qn, fdef, cinfo.module, cinfo, [obj, v], {}, st1, node):
+                            yield st2, (("raise", r.exc) if isinstance(r, Raise) else NORMAL)
+                        continue
                 self.heap_write(st1, obj, target.attr, v, node)
                 yield st1, NORMAL
         elif isinstance(target, ast.Subscript):
@@ -221,6 +236,10 @@ class StmtMixin:
         raise Unsupported("unpacking of %r" % (v,), node)
 
     def set_local(self, st, name, v):
+        if name in st.env.get("__globals__", ()):
+            mod = st.env.get("__mod__")
+            self.heap_write(st, self.module_ref(mod.name), name, v)
+            return
         st.env[name] = v
         st.written_locals.add(name)
 
@@ -237,7 +256,10 @@ class StmtMixin:
             if fname not in ty.fields:
                 raise Unsupported("record %s has no declared field %s" % (ty.rname, fname), node)
             lo, hi, ft = ty.field_slice(fname)
-            vv = coerce(v, ft)
+            try:
+                vv = self.narrow(st, v, ft, node, "record-field-%s" % fname)
+            except TypeError as e:
+                raise Unsupported("record field %s: %s" % (fname, e), node)
             terms = list(base.terms)
             terms[lo] = z3.BoolVal(True)
             terms[lo + 1:hi] = vv.terms
@@ -272,13 +294,121 @@ class StmtMixin:
                     yield st2, ("raise", ExcVal("KeyError"))
 
     # ------------------------------------------------------------------ control flow
+    def eval_condition(self, test, st):
+        """Evaluate a condition; paths that differ only in how a short-circuit condition was decided are joined again."""
+        base = len(st.pc)
+        w0, l0, g0, a0 = set(st.written), set(st.written_locals), len(st.log), st.alloc
+        res = list(self.ev(test, st))
+        plain = [(s, c) for s, c in res if not isinstance(c, Raise)]
+        if len(plain) > 1 and all(s.written == w0 and s.written_locals == l0 and len(s.log) == g0 and s.alloc is a0 and
+                                  len(s.frames) == len(plain[0][0].frames) for s, c in plain):
+            m = plain[0][0]
+            t_parts = [z3.And([x for x in s.pc[base:]] + [truth(c)]) for s, c in plain]
+            f_parts = [z3.And([x for x in s.pc[base:]] + [z3.Not(truth(c))]) for s, c in plain]
+            m.pc = m.pc[:base]
+            m.path = m.path[:len(st.path)] if len(m.path) >= len(st.path) else m.path
+            for s, c in res:
+                if isinstance(c, Raise):
+                    yield s, c, None
+            yield m, mk_bool(z3.Or(t_parts)), z3.Or(f_parts)
+            return
+        for s, c in res:
+            yield s, c, None
+
     def ex_If(self, node, st):
-        for st1, c in self.ev(node.test, st):
+        for st1, c, fcond in self.eval_condition(node.test, st):
             if isinstance(c, Raise):
                 yield st1, ("raise", c.exc)
                 continue
-            for st2, taken in self.branch(st1, truth(c), "if@%d" % node.lineno):
-                yield from self.exec_block(node.body if taken else node.orelse, st2)
+            cond = truth(c)
+            if fcond is not None:
+                # joined short-circuit paths: the two outcomes are given explicitly (sub-paths that raised are excluded from both)
+                base_pc = len(st1.pc)
+                sides = {}
+                for taken, cc in ((True, cond), (False, fcond)):
+                    from .state import feasible
+                    if feasible(st1.pc, cc):
+                        s2 = st1.clone()
+                        s2.assume(cc)
+                        s2.path.append("if@%d=%s" % (node.lineno, "T" if taken else "F"))
+                        sides[taken] = list(self.exec_block(node.body if taken else node.orelse, s2))
+                for taken in (True, False):
+                    for st3, out in sides.get(taken, []):
+                        yield st3, out
+                continue
+            base_pc = len(st1.pc)
+            sides = {}
+            for st2, taken in self.branch(st1, cond, "if@%d" % node.lineno):
+                sides[taken] = list(self.exec_block(node.body if taken else node.orelse, st2))
+            merged = self.try_merge(sides, cond, base_pc)
+            if merged is not None:
+                yield merged, NORMAL
+                continue
+            for taken in (True, False):
+                for st3, out in sides.get(taken, []):
+                    yield st3, out
+
+    def try_merge(self, sides, cond, base_pc):
+        """Join the two branches of an `if` when both end normally with the same ghost history (keeps the number of paths linear)."""
+        if set(sides) != {True, False} or any(len(v) != 1 or v[0][1][0] != "normal" for v in sides.values()):
+            return None
+        a, b = sides[True][0][0], sides[False][0][0]
+        if len(a.log) != len(b.log) or any(x[0] != y[0] or x[1] is not y[1] for x, y in zip(a.log, b.log)):
+            return None
+        if len(a.fresh_refs) != len(b.fresh_refs) or any(x.t.get_id() != y.t.get_id() for x, y in zip(a.fresh_refs, b.fresh_refs)):
+            return None
+        if a.alloc.get_id() != b.alloc.get_id() or len(a.frames) != len(b.frames):
+            return None
+        from .vals import ite_val
+        frames = []
+        for fa, fb in zip(a.frames, b.frames):
+            f = {}
+            for k in set(fa) | set(fb):
+                va, vb = fa.get(k), fb.get(k)
+                if va is vb:
+                    f[k] = va
+                elif isinstance(va, Val) and isinstance(vb, Val):
+                    try:
+                        f[k] = ite_val(cond, va, vb)
+                    except Exception:
+                        return None
+                elif k.startswith("__"):
+                    if va != vb:
+                        return None
+                    f[k] = va
+                elif va is None or vb is None:
+                    f[k] = None          # bound on one side only: unusable afterwards (use is reported as unsupported)
+                else:
+                    return None
+            frames.append(f)
+        heap = {}
+        for k in set(a.heap) | set(b.heap):
+            ha, hb = a.heap.get(k), b.heap.get(k)
+            if ha is None or hb is None:
+                owner, field = k
+                fty = dsl.REG.classes[owner].fields[field]
+                ha = ha or self.heap_arrays(a, owner, field, fty)[1]
+                hb = hb or self.heap_arrays(b, owner, field, fty)[1]
+            heap[k] = [x if x.get_id() == y.get_id() else z3.If(cond, x, y) for x, y in zip(ha, hb)]
+        m = a.clone()
+        m.frames = frames
+        m.heap = heap
+        common = a.pc[:base_pc]
+        ea = [x for x in a.pc[base_pc:] if not x.eq(cond)]
+        eb = [x for x in b.pc[base_pc:] if not x.eq(z3.Not(cond)) and not x.eq(z3.simplify(z3.Not(cond)))]
+        m.pc = list(common)
+        if ea:
+            m.pc.append(z3.Implies(cond, z3.And(ea)))
+        if eb:
+            m.pc.append(z3.Implies(z3.Not(cond), z3.And(eb)))
+        m.written = a.written | b.written
+        m.written_locals = a.written_locals | b.written_locals
+        for k, v in b.written_at.items():
+            m.written_at.setdefault(k, [])
+            m.written_at[k] = m.written_at[k] + [r for r in v if all(r.get_id() != q.get_id() for q in m.written_at[k])]
+        m.unfolded = a.unfolded | b.unfolded
+        m.path = a.path[:-1] if a.path and a.path[-1].startswith("if@") else a.path
+        return m
 
     def exc_matches(self, exc, handler_type, st, node):
         if handler_type is None:
